@@ -2,6 +2,7 @@
 mod common;
 mod pdb;
 mod record;
+mod sys;
 
 use std::collections::HashMap;
 
